@@ -41,6 +41,11 @@ def oracle (name : String) (ts : List String) : Option Bool :=
       let (w, ts) ← pNat ts; let (nm, ts) ← pTok ts; let (thr, ts) ← pFloat ts
       let (m, ts) ← pB ts; let (o, _) ← pB ts
       pure (decide (FilterSpec ⟨w, nm⟩ (fun x => firstLt thr (unbits x)) m o ∧ AllReferenced o))
+  | "removenull_spec" => do
+      let (_, ts) ← pTok ts
+      let (flags, ts) ← pCounted pNat ts
+      let (m, ts) ← pB ts; let (o, _) ← pB ts
+      pure (decide (RemoveNullFacesSpec (keepFromFlags m.indices (flags.map (· != 0))) m o))
   | "same_mesh" => do
       let (m, ts) ← pB ts; let (o, _) ← pB ts
       pure (decide (m = o))
